@@ -110,7 +110,7 @@ def gen_cases(rng, tier):
     for shape, ents in core:
         t = G.gen_object(rng, shape, nderiv=rng.choice([0, 0, 1]))
         ref = ref_getitem(shape, ents)
-        cases.append({'target': t, 'shared': False, 'src': 'core',
+        cases.append({'target': t, 'shared': False, 'src': 'core', 'via': rng.choice([None, None, 'pickle', 'copy']),
                       'steps': [{'index': ents, 'rhs': gen_rhs(rng, t, None if ref == ('err',) else ref[0], 0)}]})
     for _ in range(nrand):
         shape = rng.choice(G.LEAD_SHAPES)
@@ -123,6 +123,7 @@ def gen_cases(rng, tier):
             ref = ref_getitem(shape, ents)
             steps.append({'index': ents, 'rhs': gen_rhs(rng, t, None if ref == ('err',) else ref[0], k)})
         cases.append({'target': t, 'shared': t['mrep'] == 'arr' and rng.random() < 0.5, 'src': 'random',
+                      'via': rng.choice([None, None, None, 'pickle', 'copy']),
                       'steps': steps})
     return cases
 
@@ -244,6 +245,18 @@ def run_case(c, Pm):
     t = c['target']
     shape = tuple(t['shape'])
     q = G.build_object(t, Pm)
+    via = c.get('via')
+    if via and not t.get('ro') and not q.readonly:
+        # the target is the result of an earlier public call on an equal object: unpickled, copied, sliced out of a
+        # larger copy ... (seeded change C10-H: an unpickled integer object kept a read-only buffer while writable)
+        import pickle
+        q0 = q
+        if via == 'pickle':
+            q = pickle.loads(pickle.dumps(q0))
+        elif via == 'copy':
+            q = q0.copy()
+        if G.observe(q) != G.observe(q0):
+            q = q0
     other = None
     if c.get('shared') and isinstance(q._mask_, np.ndarray):
         other = Pm.Scalar(np.arange(q.size, dtype=float).reshape(shape) + 7000, q._mask_)
